@@ -396,6 +396,9 @@ def eval_misc(case):
             'tuple': lambda: Tags(('good', s)).tags,
             'from_json': lambda: Tags.from_json(json.dumps(['good', s])).tags,
             'element.tags': lambda: _elem_tags(s),
+            # a Tags object whose (public) list was extended after it was built, then put on a sliver / an element
+            'sliver.set_tags-edited-object': lambda: _sliver_tags_edited(s),
+            'element.tags-edited-object': lambda: _elem_tags(s, edited=True),
         }
         for nm, fn in entries.items():
             try:
@@ -409,6 +412,8 @@ def eval_misc(case):
                 v.append((f'rejects-inside/tag/{nm}', f'{nm}: tag {s!r} is valid but raised {raised}'))
             if ok and raised is None and s not in st:
                 v.append((f'not-stored-verbatim/tag/{nm}', f'{nm}: {s!r} stored as {st!r}'))
+            if not ok and raised is None:
+                _reset_topo()          # do not carry a value that should not have been stored into the next entry / case
         return {'v': v, 'nt': case, 'out': f'tag:{ok}'}
     if kind == 'name':
         _, k, s = case
@@ -548,10 +553,28 @@ def _reset_topo():
     _TOPO = None
 
 
-def _elem_tags(s):
+def _elem_tags(s, edited=False):
     t = topo()
-    t.nodes['n1'].tags = Tags('good', s)
-    return t.nodes['n1'].tags.tags
+    if edited:
+        tg = Tags('good')
+        tg.tags.append(s)
+        t.nodes['n1'].tags = tg
+    else:
+        t.nodes['n1'].tags = Tags('good', s)
+    try:
+        return t.nodes['n1'].tags.tags
+    except Exception as e:
+        # the assignment was ACCEPTED and what it stored cannot be read any more
+        _reset_topo()
+        return ['good', s, f'<stored, then unreadable: {type(e).__name__}>']
+
+
+def _sliver_tags_edited(s):
+    tg = Tags('good')
+    tg.tags.append(s)
+    x = NodeSliver()
+    x.set_tags(tg)
+    return x.get_tags().tags
 
 
 def _sl(cls, how, s):
